@@ -415,30 +415,32 @@ class PathSim:
     def exec_while(self, stmt, st, frame):
         out = []
         pending = [(st, 0)]
+        base_loops = st.loops
         while pending:
             s, k = pending.pop()
             if k > self.while_unroll:
                 s.truncated = True
+                s.loops = base_loops
                 out.append((s, ('loop-limit', stmt)))
                 continue
-            s.loops = st.loops + ((id(stmt), k),)
+            s.loops = base_loops + ((id(stmt), k),)
             for v, s2, sig in self.cond(stmt.test, s, frame):
                 if sig is not None:
-                    s2.loops = st.loops
+                    s2.loops = base_loops
                     out.append((s2, sig))
                     continue
                 if not v:
-                    s2.loops = st.loops
+                    s2.loops = base_loops
                     out.extend(self.exec_block(stmt.orelse, s2, frame))
                     continue
                 for s3, sig3 in self.exec_block(stmt.body, s2, frame):
                     if sig3 is None or sig3 == 'continue':
                         pending.append((s3, k + 1))
                     elif sig3 == 'break':
-                        s3.loops = st.loops
+                        s3.loops = base_loops
                         out.append((s3, None))
                     else:
-                        s3.loops = st.loops
+                        s3.loops = base_loops
                         out.append((s3, sig3))
             if len(out) + len(pending) > self.max_paths:
                 raise AnalysisError('path explosion in %s' % self.func.qual)
